@@ -16,6 +16,9 @@ pub async fn handle(
 ) -> Result<(), IggyError> {
     debug!("session: {session}, command: {command}");
     let system = system.read().await;
+    // Statistics are not public: like get_clients they need an authenticated user that may read servers.
+    system.ensure_authenticated(session)?;
+    system.permissioner.get_stats(session.get_user_id())?;
     let stats = system.get_stats().await.with_error_context(|error| {
         format!("{COMPONENT} (error: {error}) - failed to get stats, session: {session}")
     })?;
